@@ -661,6 +661,15 @@ def fixed_scenarios(run: Run):
                 res = op.loop(op.const(np.array(3, np.int64)), v_initial=[acc], body=lambda i, c, a: [c, a] + [op.neg(x) for x in xs])
                 feeds = {"acc": np.ones(2, np.float32), **{f"x{k}": np.ones(k + 1, np.float32) for k in range(n)}}
                 scen[f"loop-{n}-scan-outputs"] = ({"acc": acc, **{f"x{k}": x for k, x in enumerate(xs)}}, {f"r{k}": o for k, o in enumerate(res)}, feeds)
+            # Loop with MANY carried values of pairwise different types (12 states + 2 scan outputs: positional order of the outputs
+            # v_final_and_scan_outputs_0 .. _13 - two-digit suffixes), run for several trip counts
+            for trips_val in (0, 1, 3):
+                sts = [argument(Tensor(np.float32 if k % 2 else np.int64, (k + 1,))) for k in range(12)]
+                trips = argument(Tensor(np.int64, ()))
+                res = op.loop(trips, v_initial=sts, body=lambda i, c, *a: [c] + [op.add(v, v) for v in a] + [op.neg(a[0]), op.neg(a[11])])
+                scen[f"loop-12-carried-values/trips={trips_val}"] = (
+                    {"trips": trips, **{f"s{k:02d}": v for k, v in enumerate(sts)}}, {f"r{k:02d}": o for k, o in enumerate(res)},
+                    {"trips": np.array(trips_val, np.int64), **{f"s{k:02d}": np.ones(k + 1, np.float32 if k % 2 else np.int64) for k in range(12)}})
             x = argument(Tensor(np.float32, (2,)))
             y = argument(Tensor(np.float32, (3,)))
             parts = [x, x]
@@ -731,13 +740,26 @@ def fixed_scenarios(run: Run):
             try:
                 with warnings.catch_warnings():
                     warnings.simplefilter("ignore")
-                    m = build(ins, outs)
+                    # a model output needs a known rank: results reported with unknown rank are exposed through a flattening Reshape
+                    # (their element type is still checked)
+                    exposed = {k: (v if getattr(v.type, "shape", ()) is not None else op.reshape(v, op.const(np.array([-1], np.int64))))
+                               for k, v in outs.items()}
+                    m = build(ins, exposed)
                 so = ort.SessionOptions()
                 so.log_severity_level = 3
                 sess = ort.InferenceSession(_strip_types(m), so)
                 got = dict(zip([o.name for o in sess.get_outputs()], sess.run(None, feeds)))
             except Exception as e:  # noqa: BLE001
-                run.notes.append(f"fixed scenario {name}/{tag} could not be executed: {type(e).__name__}: {str(e)[:120]}")
+                # every fixed scenario is a legal program that builds and runs on the unchanged tree; when the ONNX checker or the runtime
+                # refuses the model because a declared (= reported) type contradicts what it infers or computes, that IS the finding
+                msg = f"{type(e).__name__}: {str(e)[:300]}"
+                if name.startswith("function-specialised") and isinstance(e, RuntimeError) and "two different definitions" in str(e):
+                    run.notes.append(f"fixed scenario {name}/{tag}: build refused (one definition per function) - sound")
+                    continue
+                typed = any(w in msg.lower() for w in ("type", "shape", "dimension", "rank", "incompatible", "mismatch"))
+                run.fail("impl" if typed else "corr", f"C06/fixed/{name}/model-with-the-reported-types-is-refused",
+                         f"{name} ({tag}): the program cannot be built / run with the types spox reported: {msg}",
+                         {"scenario": name, "module": tag, "reported": {k: str(v.type) for k, v in outs.items()}})
                 continue
             for k, v in outs.items():
                 n_checked += 1
